@@ -131,6 +131,14 @@ class IncrementalCKY:
         """
         c = self._chart.get(prefix)
         if c is None:
+            # Compute the missing shorter prefixes first, shortest first, so that
+            # the recursion in `_compute_chart` is never more than one level deep
+            # (a cold query on a long context would exceed the recursion limit).
+            k = len(prefix) - 1
+            while k >= 0 and prefix[:k] not in self._chart:
+                k -= 1
+            for j in range(k + 1, len(prefix)):
+                self._chart[prefix[:j]] = self._compute_chart(prefix[:j])
             c = self._compute_chart(prefix)
             self._chart[prefix] = c
         return c
